@@ -57,5 +57,39 @@ theorem probShape_of_exact (pop : Option Var) (children parents : List Var) (H :
   ⟨w, fun _ hh => h1.mem_iff.mpr hh,
     fun c hc => Or.inl (h1.mem_iff.mp (List.mem_map.mpr ⟨c, hc, rfl⟩)), h2, h3, h4⟩
 
+/-- **The part of `ProbShape` that concerns the members of `H` only** (relative to a graph `G`).  A `Probability`
+given as the c-factor of `H` is `P_w(H ∪ E | Z)` where
+* every member of `H` is a child, is NOT starred (`+X` would read the other assignment), and is neither a parent nor
+  intervened on;
+* all children and parents carry the same intervention subscripts `w` — which may be starred (`+X`), as may be the
+  parents and the further children `E`;
+* a further child is redundant: it is also a parent, or intervened on, or not a node of the graph at all.
+Nothing is required about the VALUES the starred or redundant variables take (for instance `P(T, +z | -z)` satisfies
+this predicate but has the value 0 whenever the two values of `z` differ): whether the probability denotes `Q[H]` is
+the separate, semantic hypothesis of the theorems.  `ProbShape q H → ProbShapeIn G q H`, and `ProbShapeIn` is what
+follows from "`q` denotes `Q[H]` in EVERY compatible positive model" (`Y0.TianSem.probShapeIn_of_semantic`). -/
+def ProbShapeIn (G : MG Name) (q : Expr) (H : List Name) : Prop :=
+  match q with
+  | .prob _ children parents =>
+      ∃ w : List Iv,
+        (∀ h ∈ H, h ∈ children.map (·.name)) ∧
+        (∀ c ∈ children, c.name ∈ H ∨ c.name ∈ parents.map (·.name) ∨ c.name ∈ w.map (·.name) ∨
+          c.name ∉ G.nodes) ∧
+        (∀ v ∈ children ++ parents, v.ivs = w) ∧
+        (∀ c ∈ children, c.name ∈ H → c.star ≠ some true) ∧
+        (∀ i ∈ w, i.name ∉ H) ∧
+        (∀ p ∈ parents, p.name ∉ H)
+  | _ => True
+
+theorem probShapeIn_of_probShape (G : MG Name) {q : Expr} {H : List Name} (h : ProbShape q H) :
+    ProbShapeIn G q H := by
+  cases q with
+  | prob pop ch pa =>
+    obtain ⟨w, h1, h2, h3, h4, h5⟩ := h
+    exact ⟨w, h1, fun c hc => (h2 c hc).imp id (fun h' => h'.imp id Or.inl),
+      fun v hv => (h3 v hv).1, fun c hc _ => (h3 c (List.mem_append_left _ hc)).2,
+      fun i hi => (h4 i hi).2, h5⟩
+  | _ => trivial
+
 end TianSpec
 end Y0
